@@ -214,6 +214,8 @@ struct Inner {
     /// yield point would otherwise leave everybody parked for ever)
     last_progress: std::time::Instant,
     done: bool,
+    worker_panicked: bool,
+    watchdog_expired: bool,
 }
 
 struct Sched {
@@ -223,6 +225,37 @@ struct Sched {
 }
 
 const ABORT: &str = "verif-abort";
+
+/// The scheduler of the run in progress, for the panic hook: a worker that panics (anywhere: in the walker, in the
+/// visitor) will never reach a yield point again; the hook tells the scheduler at once, so that this is decided
+/// logically and not by a wall-clock limit.
+static CURRENT: Mutex<Option<Arc<Sched>>> = Mutex::new(None);
+
+fn note_worker_panic(msg: &str) {
+    let cur = CURRENT.lock().unwrap_or_else(|e| e.into_inner()).clone();
+    if let Some(s) = cur {
+        if std::thread::current().id() == s.main {
+            return;
+        }
+        // try_lock: should the panic have happened while this thread held the scheduler lock, the watchdog decides
+        let guard = match s.m.try_lock() {
+            Ok(g) => Some(g),
+            Err(std::sync::TryLockError::Poisoned(e)) => Some(e.into_inner()),
+            Err(std::sync::TryLockError::WouldBlock) => {
+                // another thread holds it right now: wait for it (it is never held across a yield)
+                Some(s.lock())
+            }
+        };
+        if let Some(mut g) = guard {
+            if g.abort.is_none() {
+                g.abort =
+                    Some(format!("a worker thread panicked ({}): it can never reach a yield point again", msg));
+                g.worker_panicked = true;
+                s.cv.notify_all();
+            }
+        }
+    }
+}
 const VISITOR_PANIC: &str = "verif-visitor-panic";
 
 impl Sched {
@@ -387,6 +420,8 @@ struct RunOut {
     init_lens: Vec<usize>,
     abort: Option<String>,
     panicked: bool,
+    watchdog_expired: bool,
+    worker_panicked: bool,
 }
 
 fn real_run(
@@ -396,6 +431,7 @@ fn real_run(
     panic_at: Option<usize>,
     policy: Policy,
     max_steps: usize,
+    watchdog_secs: u64,
 ) -> RunOut {
     let sched = Arc::new(Sched {
         m: Mutex::new(Inner {
@@ -416,10 +452,13 @@ fn real_run(
             idle_streak: vec![0; n],
             last_progress: std::time::Instant::now(),
             done: false,
+            worker_panicked: false,
+            watchdog_expired: false,
         }),
         cv: Condvar::new(),
         main: std::thread::current().id(),
     });
+    *CURRENT.lock().unwrap_or_else(|e| e.into_inner()) = Some(sched.clone());
     let s2 = sched.clone();
     set_yield_hook(Some(Arc::new(move |info: &YieldInfo| s2.on_yield(info))));
     let mut b = WalkBuilder::new(&roots[0]);
@@ -428,7 +467,8 @@ fn real_run(
     }
     b.standard_filters(false).threads(n);
     let walker = b.build_parallel();
-    // watchdog: no yield-point arrival for 8 s means a worker is stuck or died outside the hook
+    // Last resort only (hangs are decided by the step bound / livelock detector, dead workers by the panic hook):
+    // no yield-point arrival for `watchdog_secs` of wall-clock time means a worker is blocked outside the hook.
     let s4 = sched.clone();
     let done = Arc::new((Mutex::new(false), Condvar::new()));
     let done2 = done.clone();
@@ -445,8 +485,12 @@ fn real_run(
                 return;
             }
             let mut g = s4.lock();
-            if g.abort.is_none() && g.last_progress.elapsed() > std::time::Duration::from_secs(8) {
-                g.abort = Some("no worker reached a yield point for 8 s (a worker died or blocked)".to_string());
+            if g.abort.is_none() && g.last_progress.elapsed() > std::time::Duration::from_secs(watchdog_secs) {
+                g.abort = Some(format!(
+                    "no worker reached a yield point for {} s (a worker is blocked outside the hook)",
+                    watchdog_secs
+                ));
+                g.watchdog_expired = true;
                 s4.cv.notify_all();
             }
         }
@@ -478,6 +522,7 @@ fn real_run(
         })
     }));
     set_yield_hook(None);
+    *CURRENT.lock().unwrap_or_else(|e| e.into_inner()) = None;
     sched.lock().done = true;
     {
         let (m, cv) = &*done;
@@ -493,6 +538,8 @@ fn real_run(
         init_lens: g.init_lens.clone().unwrap_or_default(),
         abort: g.abort.clone(),
         panicked: res.is_err(),
+        watchdog_expired: g.watchdog_expired,
+        worker_panicked: g.worker_panicked,
     }
 }
 
@@ -657,7 +704,18 @@ fn run_case(c: &Case, case_text: &str, sc: &mut Scratch, drv: &mut Driver, rep: 
     let kind = c.sched.split(':').next().unwrap_or("").to_string();
     rep.branch(&format!("policy:{}", kind));
     rep.branch(&format!("threads:{}", c.n));
-    let out = real_run(&roots, c.n, c.quit, c.panic_at, policy, max_steps);
+    // Wall-clock policy: the only wall-clock based verdict is the watchdog (60 s without any yield-point arrival).
+    // On expiry the same case is run once more with the limit doubled; it is reported only if it expires again.
+    let mut out = real_run(&roots, c.n, c.quit, c.panic_at, policy, max_steps, 60);
+    if out.watchdog_expired {
+        rep.branch("watchdog-expired:rerun-with-doubled-limit");
+        let policy2 = make_policy(&c.sched, c.n, est_len).unwrap();
+        out = real_run(&roots, c.n, c.quit, c.panic_at, policy2, max_steps, 120);
+        if !out.watchdog_expired {
+            rep.branch("watchdog-expired:second-run-fine");
+            rep.notes.push(format!("watchdog expired once (machine load?), second run fine: {}", case_text));
+        }
+    }
     if let Some(k) = c.panic_at {
         // Outside the property (a visitor that unwinds): only make sure the harness survives it.  The worker dies
         // while counted in active_workers, nobody can ever see the counter reach 0: the others spin until the
@@ -665,6 +723,8 @@ fn run_case(c: &Case, case_text: &str, sc: &mut Scratch, drv: &mut Driver, rep: 
         let reached = out.visits.len() > k;
         rep.branch(if !reached {
             "visitor-panic:not-reached"
+        } else if out.worker_panicked {
+            "visitor-panic:detected-by-panic-hook"
         } else if out.abort.is_some() {
             "visitor-panic:others-spin-until-watchdog"
         } else {
@@ -1034,7 +1094,18 @@ fn main() {
     // silence the panics used to tear down an aborted (hung) run
     let default_hook = std::panic::take_hook();
     std::panic::set_hook(Box::new(move |info| {
-        if info.payload().downcast_ref::<&str>().map_or(false, |s| *s == ABORT || *s == VISITOR_PANIC) {
+        if info.payload().downcast_ref::<&str>().map_or(false, |s| *s == ABORT) {
+            return;
+        }
+        let msg = if let Some(s) = info.payload().downcast_ref::<&str>() {
+            s.to_string()
+        } else if let Some(s) = info.payload().downcast_ref::<String>() {
+            s.clone()
+        } else {
+            "?".to_string()
+        };
+        note_worker_panic(&msg);
+        if msg == VISITOR_PANIC {
             return;
         }
         if let Some(s) = info.payload().downcast_ref::<String>() {
@@ -1103,8 +1174,8 @@ fn main() {
             "dfs: {} runs; every schedule within the deviation bound enumerated for every (tree, workers, quit index) configuration: {}",
             total_runs, all_complete
         ));
-        // ---- self-test (thorough only, costs one watchdog period): a visitor that panics
-        if args.thorough {
+        // ---- self-test: a visitor that panics (outside the property; the harness must survive it)
+        {
             let c = Case {
                 n: 2,
                 quit: None,
